@@ -42,13 +42,14 @@ CONSTANTS Contacts,      \* contact accounts
           OpKinds,       \* store operations of the environment
           MaxOps,        \* bound on environment operations (store operations + incoming requests)
           MaxSeed,       \* bound on reference resets
-          MaxLk,         \* lookups alive at the same time (asserted, not a guard)
+          MaxLk,         \* lookup slots (asserted, not a guard)
           MaxGen,        \* manager instances (service start, re-activation of the account group)
           WithRefused,   \* the environment also tries operations the store refuses (no state change)
           ExitCancelsAny, OfferIgnoresCancel, StartIgnoresClose, LoopHandlesAfterClose,
           DisableKeepsLookups, BlockKeepsLookup, ClosedHandlerAppends
 
-VARIABLES log,     \* account-group log: sequence of [t, c, s] (contact-request related events only)
+VARIABLES log,     \* account-group log: sequence of [t, c, s] (history; the index below is what the code reads)
+          ien, iseed, cst, nrs,    \* the index: requests enabled, current seed (0 none), contact -> state, resets so far
           nops,    \* environment operations so far
           sub,     \* the watcher's event subscription is open
           q,       \* events emitted to the subscription, not handled yet
@@ -61,37 +62,42 @@ VARIABLES log,     \* account-group log: sequence of [t, c, s] (contact-request 
           ann,     \* announce context: 0 = announceCancel nil, k = Announce(pk, seed k) started
           hdl,     \* stream handler registered on the host: 0 none, g = by manager instance g
           todo,    \* start-up: to-request contacts still to enqueue
-          lkmap,   \* manager.lookupProcess: contact -> lookup id (0 none)
+          lkmap,   \* manager.lookupProcess: contact -> lookup id (0 none, -1 a lookup that is already a zombie)
           procs,   \* lookup id -> the two goroutines of the lookup
+          z,       \* contact -> number of zombies: cancelled lookups whose channel is not closed yet
+          leak,    \* contacts with a watch loop blocked for ever
           adv,     \* contact -> kinds of peers advertising on its point (the swiper's tinder cache keeps them)
           told,    \* <<contact, its state at that time>>: a peer completed a handshake as responder and
                    \* received the account's contact (key, rendezvous seed, metadata)
           res      \* outcome of the last environment action
 
-vars == <<log, nops, sub, q, gen, mpc, closed, cfin, en, seed, ann, hdl, todo, lkmap, procs, adv, told, res>>
+idx == <<ien, iseed, cst, nrs>>
+vars == <<log, idx, nops, sub, q, gen, mpc, closed, cfin, en, seed, ann, hdl, todo, lkmap, procs, z, leak, adv, told, res>>
 
 Ev(t, c, s) == [t |-> t, c |-> c, s |-> s]
 None == Ev("none", "-", 0)
-NoProc == [c |-> "-", gen |-> 0, can |-> FALSE, p |-> "none", pk |-> "-", w |-> "none", wk |-> "-", seen |-> {}]
+NoProc == [c |-> "-", can |-> FALSE, p |-> "none", pk |-> "-", w |-> "none", wk |-> "-", seen |-> {}]
 Ids == 1..MaxLk
 
 \* --------------------------------------------------------------- the index (latest event wins)
-Last(S) == CHOOSE i \in S : \A j \in S : j <= i
-EventsOf(c) == {i \in 1..Len(log) : log[i].c = c}
 StateAfter(t) == CASE t = "enq" -> "T" [] t = "sent" -> "A" [] t = "recv" -> "R" [] t = "disc" -> "D"
                    [] t = "acc" -> "A" [] t = "blk" -> "B" [] t = "unb" -> "X"
-CState(c) == IF EventsOf(c) = {} THEN "U" ELSE StateAfter(log[Last(EventsOf(c))].t)
+CState(c) == IF c \in Contacts THEN cst[c] ELSE "U"
+ToRequest == {c \in Contacts : cst[c] = "T"}
+\* the same, computed from the log (IndexIsLog: the index variables are a function of the log)
+Last(S) == CHOOSE i \in S : \A j \in S : j <= i
+EventsOf(c) == {i \in 1..Len(log) : log[i].c = c}
 Switches == {i \in 1..Len(log) : log[i].t \in {"en", "dis"}}
-EnabledIdx == Switches # {} /\ log[Last(Switches)].t = "en"
 Resets == {i \in 1..Len(log) : log[i].t = "rs"}
-SeedIdx == IF Resets = {} THEN 0 ELSE log[Last(Resets)].s
-ToRequest == {c \in Contacts : CState(c) = "T"}
+IndexIsLog == /\ ien = (Switches # {} /\ log[Last(Switches)].t = "en")
+              /\ iseed = (IF Resets = {} THEN 0 ELSE log[Last(Resets)].s) /\ nrs = Cardinality(Resets)
+              /\ \A c \in Contacts : cst[c] = IF EventsOf(c) = {} THEN "U" ELSE StateAfter(log[Last(EventsOf(c))].t)
 
 \* --------------------------------------------------------------- the store's guards (appendix A)
 OpEvent(t, c) ==
   CASE t = "en"   -> Ev("en", "-", 0)
     [] t = "dis"  -> Ev("dis", "-", 0)
-    [] t = "rs"   -> Ev("rs", "-", Cardinality(Resets) + 1)
+    [] t = "rs"   -> Ev("rs", "-", nrs + 1)
     [] t = "enq"  -> IF c \notin Contacts THEN None      \* the account's own key
                      ELSE IF CState(c) \in {"U", "T", "B"} THEN Ev("enq", c, 0)
                      ELSE IF CState(c) \in {"R", "X", "D"} THEN Ev("sent", c, 0) ELSE None
@@ -106,35 +112,46 @@ IncomingEvent(c) == IF CState(c) \in {"U", "X", "D"} THEN Ev("recv", c, 0)
 \* append = index update + emission to the open subscription
 Emit(e) == /\ log' = Append(log, e)
            /\ q' = IF sub THEN Append(q, e) ELSE q
+           /\ ien' = IF e.t \in {"en", "dis"} THEN e.t = "en" ELSE ien
+           /\ iseed' = IF e.t = "rs" THEN e.s ELSE iseed
+           /\ nrs' = IF e.t = "rs" THEN nrs + 1 ELSE nrs
+           /\ cst' = IF e.c \in Contacts THEN [cst EXCEPT ![e.c] = StateAfter(e.t)] ELSE cst
+NoEmit == UNCHANGED <<log, q, idx>>
 
 \* --------------------------------------------------------------- lookups
 \* A lookup = the swiper's watch goroutine W (w) and the manager's sender goroutine P (p):
 \*   w: "run" in watchPeers' select | "offer" blocked in `out <- peer` (wk) | "closing" watchPeers returned
 \*      (tinder subscription closed), sleeping one second before the channel is closed | "gone"
 \*   p: "watch" in `range cpeers` | "got" a peer in hand (pk), SendContactRequest to come | "gone"
-Canc(id) == procs[id].can \/ procs[id].gen # gen \/ closed
+\* All lookups in `procs` belong to the current manager instance (its close() cancels them all, and a
+\* new instance is only created after close()).  Two shapes are final and are only counted:
+\*   zombie (w = "closing", p = "watch"): nothing but the slow exit is left to it      -> z[c]
+\*   leaked (p = "gone", w = "offer"): W blocked for ever in the channel send           -> leak
+Canc(id) == procs[id].can \/ closed
 Free == {id \in Ids : procs[id] = NoProc}
-CancelIn(P, id) == IF id = 0 THEN P ELSE [P EXCEPT ![id].can = TRUE]
-GC(P) == [id \in Ids |-> IF P[id].p = "gone" /\ P[id].w = "gone" THEN NoProc ELSE P[id]]
+CancelIn(P, id) == IF id <= 0 THEN P ELSE [P EXCEPT ![id].can = TRUE]
+IsZombie(pr) == pr.w = "closing" /\ pr.p = "watch"
+IsLeak(pr) == pr.p = "gone" /\ pr.w = "offer" /\ OfferIgnoresCancel
+IsDone(pr) == pr.p = "gone" /\ pr.w = "gone"
+\* counting the final shapes out of the slots (P, L: the new procs and lookupProcess before counting)
+SettleZ(P, L, Z) ==
+  /\ procs' = [id \in Ids |-> IF IsZombie(P[id]) \/ IsLeak(P[id]) \/ IsDone(P[id]) THEN NoProc ELSE P[id]]
+  /\ z' = [c \in Contacts |-> Z[c] + Cardinality({id \in Ids : IsZombie(P[id]) /\ P[id].c = c})]
+  /\ leak' = leak \cup {P[id].c : id \in {i \in Ids : IsLeak(P[i])}}
+  /\ lkmap' = [c \in Contacts |-> IF L[c] > 0 /\ IsZombie(P[L[c]]) THEN -1 ELSE L[c]]
+Settle(P, L) == SettleZ(P, L, z)
 
 \* enqueueRequest(c): refused for an added contact; otherwise registerContactLookup (cancels the
 \* registered lookup of the contact) + WatchTopic + the sender goroutine
 Register(c) ==
-  IF CState(c) = "A" THEN UNCHANGED <<lkmap, procs>>
+  IF CState(c) = "A" THEN UNCHANGED <<lkmap, procs, z, leak>>
   ELSE /\ Assert(Free # {}, "MaxLk too small")
        /\ LET id == CHOOSE i \in Free : \A j \in Free : i <= j IN
-            /\ procs' = [CancelIn(procs, lkmap[c]) EXCEPT
-                           ![id] = [c |-> c, gen |-> gen, can |-> FALSE, p |-> "watch", pk |-> "-",
-                                    w |-> "run", wk |-> "-", seen |-> {}]]
-            /\ lkmap' = [lkmap EXCEPT ![c] = id]
+            Settle([CancelIn(procs, lkmap[c]) EXCEPT
+                      ![id] = [c |-> c, can |-> FALSE, p |-> "watch", pk |-> "-", w |-> "run", wk |-> "-", seen |-> {}]],
+                   [lkmap EXCEPT ![c] = id])
 \* cancelContactLookup(c)
-Unregister(c) == /\ procs' = CancelIn(procs, lkmap[c])
-                 /\ lkmap' = [lkmap EXCEPT ![c] = 0]
-\* the sender's last step: cancelContactLookup(its contact) - on the manager that created it
-ExitCancel(P, id) ==
-  LET c == procs[id].c
-      hit == procs[id].gen = gen /\ lkmap[c] # 0 /\ (ExitCancelsAny \/ lkmap[c] = id) IN
-  [pr |-> IF hit THEN CancelIn(P, lkmap[c]) ELSE P, lk |-> IF hit THEN [lkmap EXCEPT ![c] = 0] ELSE lkmap]
+Unregister(c) == Settle(CancelIn(procs, lkmap[c]), [lkmap EXCEPT ![c] = 0])
 
 \* W: watchPeers takes a peer of the topic from the tinder subscription and offers it on the unbuffered
 \* channel: the sender takes it at once when it is receiving, otherwise W stays blocked in the send
@@ -143,39 +160,43 @@ WFetch(id, k) == /\ procs[id].w = "run" /\ ~Canc(id)
                  /\ procs' = IF procs[id].p = "watch"
                                THEN [procs EXCEPT ![id].seen = @ \cup {k}, ![id].p = "got", ![id].pk = k]
                                ELSE [procs EXCEPT ![id].seen = @ \cup {k}, ![id].w = "offer", ![id].wk = k]
-                 /\ UNCHANGED <<log, nops, sub, q, gen, mpc, closed, cfin, en, seed, ann, hdl, todo, lkmap, adv, told, res>>
+                 /\ UNCHANGED <<log, idx, nops, sub, q, gen, mpc, closed, cfin, en, seed, ann, hdl, todo, lkmap, z, leak, adv, told, res>>
 Handoff(id) == /\ procs[id].w = "offer" /\ procs[id].p = "watch"
                /\ procs' = [procs EXCEPT ![id].w = "run", ![id].wk = "-", ![id].p = "got", ![id].pk = procs[id].wk]
-               /\ UNCHANGED <<log, nops, sub, q, gen, mpc, closed, cfin, en, seed, ann, hdl, todo, lkmap, adv, told, res>>
+               /\ UNCHANGED <<log, idx, nops, sub, q, gen, mpc, closed, cfin, en, seed, ann, hdl, todo, lkmap, z, leak, adv, told, res>>
 \* W: the context is done: watchPeers returns, the tinder subscription is closed
 WStopEnabled(id) == Canc(id) /\ (procs[id].w = "run" \/ (procs[id].w = "offer" /\ ~OfferIgnoresCancel))
 WStop(id) == /\ WStopEnabled(id)
-             /\ procs' = [procs EXCEPT ![id].w = "closing", ![id].wk = "-"]
-             /\ UNCHANGED <<log, nops, sub, q, gen, mpc, closed, cfin, en, seed, ann, hdl, todo, lkmap, adv, told, res>>
+             /\ Settle([procs EXCEPT ![id].w = IF procs[id].p = "gone" THEN "gone" ELSE "closing", ![id].wk = "-"], lkmap)
+             /\ UNCHANGED <<log, idx, nops, sub, q, gen, mpc, closed, cfin, en, seed, ann, hdl, todo, adv, told, res>>
 \* P: SendContactRequest to the peer in hand.  Fails on a cancelled context and against a peer
 \* without the contact's key; after a complete handshake the contact holds the account's contact,
 \* and the request is marked sent if the store's guard allows it; then P cancels the contact's
-\* lookup and leaves
+\* lookup (whichever is registered) and leaves
 LkSend(id) ==
   LET c == procs[id].c
-      x == ExitCancel([procs EXCEPT ![id].p = "gone", ![id].pk = "-"], id) IN
+      back == [procs EXCEPT ![id].p = "watch", ![id].pk = "-"]
+      hit == lkmap[c] # 0 /\ (ExitCancelsAny \/ lkmap[c] = id) IN
   /\ procs[id].p = "got"
   /\ IF Canc(id) \/ procs[id].pk # "good"
-       THEN /\ procs' = [procs EXCEPT ![id].p = "watch", ![id].pk = "-"]
-            /\ UNCHANGED <<log, q, told, lkmap>>
+       THEN Settle(back, lkmap) /\ NoEmit /\ UNCHANGED told
        ELSE /\ told' = told \cup {<<c, CState(c)>>}
             /\ IF OpEvent("sent", c) # None
-                 THEN Emit(OpEvent("sent", c)) /\ procs' = GC(x.pr) /\ lkmap' = x.lk
-                 ELSE UNCHANGED <<log, q, lkmap>> /\ procs' = [procs EXCEPT ![id].p = "watch", ![id].pk = "-"]
+                 THEN /\ Emit(OpEvent("sent", c))
+                      /\ Settle([(IF hit THEN CancelIn(procs, lkmap[c]) ELSE procs) EXCEPT ![id].p = "gone", ![id].pk = "-"],
+                                IF hit THEN [lkmap EXCEPT ![c] = 0] ELSE lkmap)
+                 ELSE NoEmit /\ Settle(back, lkmap)
   /\ UNCHANGED <<nops, sub, gen, mpc, closed, cfin, en, seed, ann, hdl, todo, adv, res>>
-\* W: one second after watchPeers returned the loop ends and the channel is closed;
-\* P: the range loop ends, cancelContactLookup(contact), leave
-ZombieExit(id) ==
-  LET x == ExitCancel([procs EXCEPT ![id].p = "gone", ![id].w = "gone"], id) IN
-  /\ procs[id].w = "closing" /\ procs[id].p \in {"watch", "gone"}
-  /\ procs' = GC(IF procs[id].p = "watch" THEN x.pr ELSE [procs EXCEPT ![id].w = "gone"])
-  /\ lkmap' = IF procs[id].p = "watch" THEN x.lk ELSE lkmap
-  /\ UNCHANGED <<log, nops, sub, q, gen, mpc, closed, cfin, en, seed, ann, hdl, todo, adv, told, res>>
+\* W of a zombie: one second after watchPeers returned the loop ends and the channel is closed;
+\* P: the range loop ends, cancelContactLookup(contact), leave.  `own`: the zombie is the registered lookup
+ZombieExit(c, own) ==
+  LET hit == lkmap[c] # 0 /\ (ExitCancelsAny \/ own) IN
+  /\ z[c] > 0
+  /\ own => lkmap[c] = -1
+  /\ (lkmap[c] = -1 /\ z[c] = 1) => own
+  /\ SettleZ(IF hit THEN CancelIn(procs, lkmap[c]) ELSE procs, IF hit THEN [lkmap EXCEPT ![c] = 0] ELSE lkmap,
+             [z EXCEPT ![c] = @ - 1])
+  /\ UNCHANGED <<log, idx, nops, sub, q, gen, mpc, closed, cfin, en, seed, ann, hdl, todo, adv, told, res>>
 
 \* --------------------------------------------------------------- the watcher goroutine
 \* enableContactRequest / enableAnnounce
@@ -185,27 +206,24 @@ EnableCR == IF en THEN UNCHANGED <<en, hdl, ann>>
 
 StSubscribe == /\ mpc = "new"
                /\ mpc' = "subd" /\ sub' = TRUE /\ q' = <<>>
-               /\ UNCHANGED <<log, nops, gen, closed, cfin, en, seed, ann, hdl, todo, lkmap, procs, adv, told, res>>
+               /\ UNCHANGED <<log, idx, nops, gen, closed, cfin, en, seed, ann, hdl, todo, lkmap, procs, z, leak, adv, told, res>>
 \* read the index (status, seed), enable under the lock, list the to-request contacts
 StRead == /\ mpc = "subd"
           /\ IF closed /\ ~StartIgnoresClose
                THEN /\ mpc' = "done" /\ sub' = FALSE /\ q' = <<>>
                     /\ UNCHANGED <<en, seed, ann, hdl, todo>>
-               ELSE /\ seed' = SeedIdx
-                    /\ IF EnabledIdx THEN EnableCR ELSE UNCHANGED <<en, hdl, ann>>
+               ELSE /\ seed' = iseed
+                    /\ IF ien THEN EnableCR ELSE UNCHANGED <<en, hdl, ann>>
                     /\ todo' = ToRequest /\ mpc' = "listed"
                     /\ UNCHANGED <<sub, q>>
-          /\ UNCHANGED <<log, nops, gen, closed, cfin, lkmap, procs, adv, told, res>>
+          /\ UNCHANGED <<log, idx, nops, gen, closed, cfin, lkmap, procs, z, leak, adv, told, res>>
 \* (the order of the listing is the iteration order of a map; enqueues of different contacts commute)
 StEnqueue == /\ mpc = "listed" /\ todo # {}
              /\ LET c == CHOOSE x \in todo : TRUE IN todo' = todo \ {c} /\ Register(c)
-             /\ UNCHANGED <<log, nops, sub, q, gen, mpc, closed, cfin, en, seed, ann, hdl, adv, told, res>>
+             /\ UNCHANGED <<log, idx, nops, sub, q, gen, mpc, closed, cfin, en, seed, ann, hdl, adv, told, res>>
 StLoop == /\ mpc = "listed" /\ todo = {}
           /\ mpc' = "loop"
-          /\ UNCHANGED <<log, nops, sub, q, gen, closed, cfin, en, seed, ann, hdl, todo, lkmap, procs, adv, told, res>>
-
-AllLookups == {c \in Contacts : lkmap[c] # 0}
-CancelAll(P) == [id \in Ids |-> IF \E c \in Contacts : lkmap[c] = id THEN [P[id] EXCEPT !.can = TRUE] ELSE P[id]]
+          /\ UNCHANGED <<log, idx, nops, sub, q, gen, closed, cfin, en, seed, ann, hdl, todo, lkmap, procs, z, leak, adv, told, res>>
 
 \* one event under the manager lock
 HandleEvent ==
@@ -215,97 +233,102 @@ HandleEvent ==
   /\ q' = Tail(q)
   /\ CASE e.t = "dis" ->
             /\ IF en THEN en' = FALSE /\ ann' = 0 /\ hdl' = 0 ELSE UNCHANGED <<en, ann, hdl>>
-            /\ IF DisableKeepsLookups THEN UNCHANGED <<lkmap, procs>>
-               ELSE procs' = CancelAll(procs) /\ lkmap' = [c \in Contacts |-> 0]
+            /\ IF DisableKeepsLookups THEN UNCHANGED <<lkmap, procs, z, leak>>
+               ELSE Settle([id \in Ids |-> IF procs[id] = NoProc THEN NoProc ELSE [procs[id] EXCEPT !.can = TRUE]],
+                           [c \in Contacts |-> IF lkmap[c] = -1 THEN -1 ELSE 0])
             /\ UNCHANGED seed
-       [] e.t = "en" -> UNCHANGED <<seed, lkmap, procs>> /\ EnableCR
+       [] e.t = "en" -> UNCHANGED <<seed, lkmap, procs, z, leak>> /\ EnableCR
        [] e.t = "rs" ->
             /\ IF e.s = seed THEN UNCHANGED <<seed, ann>>          \* "unable to reset twice with the same seed"
                ELSE seed' = e.s /\ ann' = IF en THEN e.s ELSE ann
-            /\ UNCHANGED <<en, hdl, lkmap, procs>>
+            /\ UNCHANGED <<en, hdl, lkmap, procs, z, leak>>
        [] e.t = "enq" -> Register(e.c) /\ UNCHANGED <<en, seed, ann, hdl>>
        [] e.t \in {"sent", "recv"} -> Unregister(e.c) /\ UNCHANGED <<en, seed, ann, hdl>>
        [] e.t = "blk" /\ ~BlockKeepsLookup -> Unregister(e.c) /\ UNCHANGED <<en, seed, ann, hdl>>
-       [] OTHER -> UNCHANGED <<en, seed, ann, hdl, lkmap, procs>>
-  /\ UNCHANGED <<log, nops, sub, gen, mpc, closed, cfin, todo, adv, told, res>>
+       [] OTHER -> UNCHANGED <<en, seed, ann, hdl, lkmap, procs, z, leak>>
+  /\ UNCHANGED <<log, idx, nops, sub, gen, mpc, closed, cfin, todo, adv, told, res>>
 \* select took ctx.Done: the watcher returns, the subscription is closed
 WatcherExit == /\ mpc = "loop" /\ closed
                /\ mpc' = "done" /\ sub' = FALSE /\ q' = <<>>
-               /\ UNCHANGED <<log, nops, gen, closed, cfin, en, seed, ann, hdl, todo, lkmap, procs, adv, told, res>>
+               /\ UNCHANGED <<log, idx, nops, gen, closed, cfin, en, seed, ann, hdl, todo, lkmap, procs, z, leak, adv, told, res>>
 
 \* --------------------------------------------------------------- close()
 CloseCancel == /\ mpc # "none" /\ ~closed
                /\ closed' = TRUE
                /\ res' = [act |-> "close"]
-               /\ UNCHANGED <<log, nops, sub, q, gen, mpc, cfin, en, seed, ann, hdl, todo, lkmap, procs, adv, told>>
+               /\ UNCHANGED <<log, idx, nops, sub, q, gen, mpc, cfin, en, seed, ann, hdl, todo, lkmap, procs, z, leak, adv, told>>
 CloseFinish == /\ closed /\ ~cfin
                /\ cfin' = TRUE /\ en' = FALSE /\ ann' = 0 /\ hdl' = 0
-               /\ UNCHANGED <<log, nops, sub, q, gen, mpc, closed, seed, todo, lkmap, procs, adv, told, res>>
-\* newContactRequestsManager (service start; re-activation of the account group after close())
+               /\ UNCHANGED <<log, idx, nops, sub, q, gen, mpc, closed, seed, todo, lkmap, procs, z, leak, adv, told, res>>
+\* newContactRequestsManager (service start; re-activation of the account group after close()).
+\* Only once the previous instance is through: its watcher returned and its lookups are zombies or gone
+\* (they can no longer touch anything: their sends fail, their final cancel works on the old instance).
 New == /\ gen < MaxGen
-       /\ mpc = "none" \/ cfin
+       /\ mpc = "none" \/ (cfin /\ mpc = "done" /\ \A id \in Ids : procs[id] = NoProc)
        /\ gen' = gen + 1 /\ mpc' = "new" /\ closed' = FALSE /\ cfin' = FALSE
        /\ en' = FALSE /\ seed' = 0 /\ ann' = 0 /\ todo' = {}
-       /\ lkmap' = [c \in Contacts |-> 0]
+       /\ lkmap' = [c \in Contacts |-> 0] /\ z' = [c \in Contacts |-> 0]
        /\ res' = [act |-> "new"]
-       /\ UNCHANGED <<log, nops, sub, q, hdl, procs, adv, told>>
+       /\ UNCHANGED <<log, idx, nops, sub, q, hdl, procs, leak, adv, told>>
 
 \* --------------------------------------------------------------- environment
 Op(t, c) == /\ nops < MaxOps
             /\ WithRefused \/ OpEvent(t, c) # None
-            /\ t = "rs" => Cardinality(Resets) < MaxSeed
+            /\ t = "rs" => nrs < MaxSeed
             /\ nops' = nops + 1
             /\ LET e == OpEvent(t, c) IN
-                 /\ IF e = None THEN UNCHANGED <<log, q>> ELSE Emit(e)
+                 /\ IF e = None THEN NoEmit ELSE Emit(e)
                  /\ res' = [act |-> "op", t |-> e.t]
-            /\ UNCHANGED <<sub, gen, mpc, closed, cfin, en, seed, ann, hdl, todo, lkmap, procs, adv, told>>
+            /\ UNCHANGED <<sub, gen, mpc, closed, cfin, en, seed, ann, hdl, todo, lkmap, procs, z, leak, adv, told>>
 \* a peer of contact c starts advertising on c's rendezvous point
 Advertise(c, k) == /\ k \notin adv[c]
                    /\ adv' = [adv EXCEPT ![c] = @ \cup {k}]
                    /\ res' = [act |-> "peer"]
-                   /\ UNCHANGED <<log, nops, sub, q, gen, mpc, closed, cfin, en, seed, ann, hdl, todo, lkmap, procs, told>>
+                   /\ UNCHANGED <<log, idx, nops, sub, q, gen, mpc, closed, cfin, en, seed, ann, hdl, todo, lkmap, procs, z, leak, told>>
 \* a peer of contact c opens a contact-request stream to the account and plays the requester
 Incoming(c, k) ==
   /\ nops < MaxOps /\ nops' = nops + 1
   /\ LET dead == hdl # gen \/ closed
          e == IncomingEvent(c) IN
-       IF hdl = 0 THEN res' = [act |-> "inc", t |-> "nohandler"] /\ UNCHANGED <<log, q>>
+       IF hdl = 0 THEN res' = [act |-> "inc", t |-> "nohandler"] /\ NoEmit
        ELSE IF k # "good" \/ (dead /\ ~ClosedHandlerAppends) \/ e = None
-         THEN res' = [act |-> "inc", t |-> "none"] /\ UNCHANGED <<log, q>>
+         THEN res' = [act |-> "inc", t |-> "none"] /\ NoEmit
          ELSE res' = [act |-> "inc", t |-> e.t] /\ Emit(e)
-  /\ UNCHANGED <<sub, gen, mpc, closed, cfin, en, seed, ann, hdl, todo, lkmap, procs, adv, told>>
+  /\ WithRefused \/ log' # log
+  /\ UNCHANGED <<sub, gen, mpc, closed, cfin, en, seed, ann, hdl, todo, lkmap, procs, z, leak, adv, told>>
 
 \* --------------------------------------------------------------- enabling predicates
 ProcFastEnabled(id) ==
   \/ procs[id].w = "run" /\ ~Canc(id) /\ adv[procs[id].c] \ procs[id].seen # {}
   \/ procs[id].w = "offer" /\ procs[id].p = "watch"
   \/ procs[id].p = "got"
-ProcSlowEnabled(id) == procs[id].w = "closing" /\ procs[id].p \in {"watch", "gone"}
 Stopping == {id \in Ids : WStopEnabled(id)}
+FastProcs == {id \in Ids : ProcFastEnabled(id)}
 StartupEnabled == mpc \in {"new", "subd", "listed"}
 EventEnabled == mpc = "loop" /\ q # <<>> /\ (closed => LoopHandlesAfterClose)
-FastEnabled == \/ StartupEnabled \/ (mpc = "loop" /\ closed) \/ (closed /\ ~cfin) \/ Stopping # {}
-               \/ \E id \in Ids : ProcFastEnabled(id)
-SlowEnabled == \E id \in Ids : ProcSlowEnabled(id)
+FastEnabled == \/ StartupEnabled \/ (mpc = "loop" /\ closed) \/ (closed /\ ~cfin) \/ Stopping # {} \/ FastProcs # {}
+SlowEnabled == \E c \in Contacts : z[c] > 0
 InternalEnabled == FastEnabled \/ SlowEnabled \/ EventEnabled
 Quiet == ~InternalEnabled
 
 \* --------------------------------------------------------------- composition
 ProcFast(id) == (\E k \in Kinds : WFetch(id, k)) \/ Handoff(id) \/ LkSend(id)
-ProcSlow(id) == ZombieExit(id)
+Slow == \E c \in Contacts : \E own \in BOOLEAN : ZombieExit(c, own)
 Startup == StSubscribe \/ StRead \/ StEnqueue \/ StLoop
-Internal == \/ Startup \/ HandleEvent \/ WatcherExit \/ CloseFinish
-            \/ \E id \in Ids : ProcFast(id) \/ ProcSlow(id)
 Global == {"en", "dis", "rs"}
 Env == \/ \E t \in OpKinds \ (Global \cup {"enqself"}) : \E c \in Contacts : Op(t, c)
        \/ \E t \in OpKinds \cap Global : Op(t, "-")
        \/ ("enqself" \in OpKinds /\ Op("enq", "self"))
        \/ \E c \in Contacts : \E k \in Kinds : Advertise(c, k) \/ Incoming(c, k)
        \/ New \/ CloseCancel
+Internal == Startup \/ HandleEvent \/ WatcherExit \/ CloseFinish \/ Slow
+            \/ \E id \in Ids : ProcFast(id) \/ WStop(id)
 
-Init == /\ log = <<>> /\ nops = 0 /\ sub = FALSE /\ q = <<>> /\ gen = 0 /\ mpc = "none"
+Init == /\ log = <<>> /\ ien = FALSE /\ iseed = 0 /\ cst = [c \in Contacts |-> "U"] /\ nrs = 0
+        /\ nops = 0 /\ sub = FALSE /\ q = <<>> /\ gen = 0 /\ mpc = "none"
         /\ closed = FALSE /\ cfin = FALSE /\ en = FALSE /\ seed = 0 /\ ann = 0 /\ hdl = 0 /\ todo = {}
         /\ lkmap = [c \in Contacts |-> 0] /\ procs = [id \in Ids |-> NoProc]
+        /\ z = [c \in Contacts |-> 0] /\ leak = {}
         /\ adv = [c \in Contacts |-> {}] /\ told = {} /\ res = [act |-> "init"]
 \* Partial-order reduction (sound for everything checked here):
 \*  - a cancelled watch loop leaving watchPeers (WStop) commutes with every other step and is invisible: taken first;
@@ -317,61 +340,55 @@ Init == /\ log = <<>> /\ nops = 0 /\ sub = FALSE /\ q = <<>> /\ gen = 0 /\ mpc =
 \*    first; a second peer arriving while the sender is busy).
 \* The steps of the watcher (start-up, one event at a time), of close() and the slow step (the channel
 \* closing one second after the cancellation) interleave freely with the environment.
-FastProcs == {id \in Ids : ProcFastEnabled(id)}
 Next == IF Stopping # {} THEN WStop(CHOOSE i \in Stopping : \A j \in Stopping : i <= j)
         ELSE IF FastProcs # {} THEN ProcFast(CHOOSE i \in FastProcs : \A j \in FastProcs : i <= j)
-        ELSE Env \/ Startup \/ HandleEvent \/ WatcherExit \/ CloseFinish \/ \E id \in Ids : ProcSlow(id)
+        ELSE Env \/ Startup \/ HandleEvent \/ WatcherExit \/ CloseFinish \/ Slow
 Spec == Init /\ [][Next]_vars
 \* fairness for the liveness configuration: every goroutine keeps running
-FairSpec == Spec /\ WF_vars(Internal) /\ WF_vars(\E id \in Ids : WStop(id))
+FairSpec == Spec /\ WF_vars(Internal)
 
 \* --------------------------------------------------------------- observable projection
 Running == mpc = "loop" /\ ~closed
 AnnLive == IF ann # 0 /\ ~closed /\ mpc # "none" THEN {ann} ELSE {}      \* live announce contexts (by seed)
 Lookups == {c \in Contacts : lkmap[c] # 0}                              \* keys of lookupProcess
-Watched == {procs[id].c : id \in {i \in Ids : procs[i].w \in {"run", "offer"}}}   \* open tinder subscriptions
-Senders == Cardinality({id \in Ids : procs[id].p \in {"watch", "got"}})           \* sender goroutines alive
-LiveLookup(c) == lkmap[c] # 0 /\ ~Canc(lkmap[c]) /\ procs[lkmap[c]].p \in {"watch", "got"} /\ procs[lkmap[c]].w \in {"run", "offer"}
-Leaked == {id \in Ids : procs[id].p = "gone" /\ procs[id].w = "offer"}
+Watched == {procs[id].c : id \in {i \in Ids : procs[i].w \in {"run", "offer"}}} \cup leak   \* open tinder subscriptions
+LiveLookup(c) == lkmap[c] > 0 /\ ~Canc(lkmap[c]) /\ procs[lkmap[c]].p \in {"watch", "got"} /\ procs[lkmap[c]].w \in {"run", "offer"}
 
 \* --------------------------------------------------------------- design invariants
 TypeOK == /\ mpc \in {"none", "new", "subd", "listed", "loop", "done"}
           /\ en \in BOOLEAN /\ seed \in 0..MaxSeed /\ ann \in 0..MaxSeed /\ hdl \in 0..MaxGen
-          /\ \A c \in Contacts : lkmap[c] \in 0..MaxLk
-          /\ \A c \in Contacts : lkmap[c] # 0 => procs[lkmap[c]].c = c /\ procs[lkmap[c]].gen = gen
+          /\ \A c \in Contacts : lkmap[c] \in -1..MaxLk /\ z[c] >= 0
+          /\ \A c \in Contacts : lkmap[c] > 0 => procs[lkmap[c]].c = c
+          /\ \A c \in Contacts : lkmap[c] = -1 => z[c] > 0
 \* I1: while running and idle the manager announces iff requests are enabled and a seed is set,
-\*     and then on the current seed; its switches agree with the index; the handler is its own
+\*     its switches agree with the index
 AnnounceIffEnabled ==
-  (Running /\ Quiet) => /\ en = EnabledIdx /\ seed = SeedIdx
+  (Running /\ Quiet) => /\ en = ien /\ seed = iseed
                         /\ (ann # 0) = (en /\ seed # 0)
 HandlerIffEnabled == (Running /\ Quiet) => (hdl # 0) = en /\ (en => hdl = gen)
 \* I2: never announce a point other than the current one (after a reset the old point is gone)
 OldPointGone == ann # 0 => ann = seed
-\* I3: while running and idle, a lookup runs for exactly the contacts whose latest event is an enqueue
-LookupIffToRequest == (Running /\ Quiet) => \A c \in Contacts : LiveLookup(c) = (CState(c) = "T")
-\*     ... the two directions separately (the code breaks them for different reasons)
-NoLookupLost == (Running /\ Quiet) => \A c \in Contacts : CState(c) = "T" => LiveLookup(c)
-NoStrayLookup == (Running /\ Quiet) => \A c \in Contacts : LiveLookup(c) => CState(c) = "T"
-\* I4: nothing survives close(): no lookup, no watch, no sender, no announce, no handler
-NothingSurvivesClose ==
-  (mpc = "done" /\ cfin /\ Quiet) => /\ Lookups = {} /\ Watched = {} /\ Senders = 0
-                                     /\ ~en /\ ann = 0 /\ hdl = 0
-\*     ... split
-HandlerGoneAfterClose == (mpc = "done" /\ cfin /\ Quiet) => hdl = 0 /\ ~en
-NoWatchLeak == Leaked = {}
+\* I3: while running and idle, a lookup runs for exactly the contacts whose latest event is an enqueue;
+\*     the two directions separately (the code breaks them for different reasons)
+NoLookupLost == (Running /\ Quiet) => \A c \in Contacts : cst[c] = "T" => LiveLookup(c)
+NoStrayLookup == (Running /\ Quiet) => \A c \in Contacts : LiveLookup(c) => cst[c] = "T"
+\* I4: nothing survives close(): no lookup, no watch, no announce, no handler
+Closed == mpc = "done" /\ cfin /\ Quiet
+NoLookupAfterClose == Closed => Lookups = {} /\ \A id \in Ids : procs[id] = NoProc
+HandlerGoneAfterClose == Closed => hdl = 0 /\ ~en /\ ann = 0
+NoWatchLeak == leak = {}
 \* I5: at most one "sent" per enqueue: per contact, two "sent" events are never adjacent
 OneSentPerEnqueue ==
   \A c \in Contacts : \A i, j \in EventsOf(c) :
      (i < j /\ log[i].t = "sent" /\ log[j].t = "sent") => \E k \in EventsOf(c) : i < k /\ k < j
-\* the account is never its own contact; a blocked contact's request leaves no trace (C07 clauses)
+\* the account is never its own contact (C07 clause)
 NeverSelf == \A i \in 1..Len(log) : log[i].c # "self"
 \* a contact is handed the account's contact only while it is to be requested (fails: BlockKeepsLookup -
 \* a blocked contact is still sent the request)
 ToldOnlyToRequest == [][\A x \in told' \ told : x[2] = "T"]_vars
 
 \* liveness (FairSpec): a to-request contact with a reachable good peer is eventually not to-request
-Reachable(c) == "good" \in adv[c] /\ Running
-EventuallySent == \A c \in Contacts : (CState(c) = "T" /\ Reachable(c)) ~> (CState(c) # "T" \/ ~Running)
+EventuallySent == \A c \in Contacts : (cst[c] = "T" /\ "good" \in adv[c] /\ Running) ~> (cst[c] # "T" \/ ~Running)
 
-view == <<log, sub, q, gen, mpc, closed, cfin, en, seed, ann, hdl, todo, lkmap, procs, adv, nops>>
+view == <<idx, sub, q, gen, mpc, closed, cfin, en, seed, ann, hdl, todo, lkmap, procs, z, leak, adv, nops>>
 =============================================================================
